@@ -529,6 +529,38 @@ def rule_wellformed(ck: Check, repo: Repo, rid: str) -> None:
                     "src/reuse/global_licensing.py")
 
 
+def rule_converter_verbatim(ck: Check, repo: Repo, rid: str = "R6") -> None:
+    """The glob TEXT reaches translate() as it was written: the attrs converter of `paths` may wrap a string in a set and
+    turn a list into a set, nothing else.  A converter that strips, normalises or case-folds the strings changes which
+    paths a glob denotes (`"data/raw "` would match `data/raw`)."""
+    r = ck.rule(rid, "the converter of AnnotationsItem.paths hands every glob on verbatim")
+    cls = repo.cls(f"{GL}.AnnotationsItem")
+    conv = None
+    for st in cls.body:
+        if isinstance(st, ast.AnnAssign) and ast.unparse(st.target) == "paths" and isinstance(st.value, ast.Call):
+            conv = next((ast.unparse(kw.value) for kw in st.value.keywords if kw.arg == "converter"), None)
+    r.instance("paths-converter", {"converter": conv})
+    if conv is None:
+        return
+    q = f"{GL}.{conv}"
+    if not repo.has_func(q):
+        raise AnalysisError(f"AnnotationsItem.paths: converter {conv} is not a function of the module (not decided)")
+    fn = repo.func(q)
+    ck.analysed_fn(q)
+    p0 = fn.args.args[0].arg
+    derived = {p0} | {t.id for n in ast.walk(fn) if isinstance(n, ast.comprehension) and any(isinstance(x, ast.Name) and x.id == p0 for x in ast.walk(n.iter))
+                       for t in ast.walk(n.target) if isinstance(t, ast.Name)}
+    touched = [c for c in ast.walk(fn) if isinstance(c, ast.Call) and isinstance(c.func, ast.Attribute) and isinstance(c.func.value, ast.Name)
+               and c.func.value.id in derived]
+    touched += [c for c in ast.walk(fn) if isinstance(c, ast.Call) and ast.unparse(c.func) in ("map", "PurePath", "PurePosixPath", "Path", "str.strip", "os.path.normpath")
+                and any(isinstance(x, ast.Name) and x.id in derived for x in ast.walk(c))]
+    r.instance("converter-body", {"function": q, "string_operations": [ast.unparse(c)[:50] for c in touched]})
+    for c in touched:
+        r.violation(q, f"the converter rewrites the strings it stores ({ast.unparse(c)[:50]})",
+                    "`path = \"data/raw \"` (a name that ends in a blank) is compiled as `data/raw`: the glob now matches a path outside its language"
+                    " and misses the one it denotes - 'every other character matches only itself'", repo.loc(c))
+
+
 def run(ck: Check, repo: Repo) -> None:
     ck.explanation = (
         "The glob translator is extracted from its source as an exact finite-state transducer (conditional"
@@ -565,3 +597,4 @@ def run(ck: Check, repo: Repo) -> None:
     # 'an annotation applies to a file exactly when one of its globs matches': the nested lookup asks every REUSE.toml
     from . import c04
     c04.rule_relevant_items(ck, repo, "R5")
+    rule_converter_verbatim(ck, repo)
